@@ -43,3 +43,43 @@ Theorem C11_swallowed_not_replayed_mp11 : forall cf mc children e rn g,
   mblocked cf mc children rn (e_ty e) = true -> mcb_submit cf mc children e rn g = (Some tt, rn, g).
 Proof. exact mp11_submit_blocked. Qed.
 Print Assumptions C11_swallowed_not_replayed_mp11.
+
+(* ---- for as long as it lives ---- *)
+From Msm Require Import Lemmas_Forever.
+
+(* every definition (no restriction on its features), every runtime tree in which a terminate state is the active state
+   of some region of the machine process_event is called on, every list of later process_event calls with any events,
+   guard valuations and plans: each call answers "handled" at once, runs no behaviour, stores nothing and leaves the
+   whole tree - hence the reported configuration - as it was *)
+Theorem C11_terminated_forever_back : forall cf, c_be cf <> Mp11 -> forall parents root fuel rn l s,
+  has_blocking root = true -> In s (act rn) -> is_term_state (get_state root s) = true -> Forall is_process l ->
+  run_ops cf root (build cf parents false root) (S fuel) rn l = map (fun _ => ([Res HANDLED_TRUE], snapshot root rn [])) l.
+Proof. exact back_terminated_forever. Qed.
+Print Assumptions C11_terminated_forever_back.
+
+Theorem C11_terminated_forever_mp11 : forall cf, c_be cf = Mp11 -> forall parents root fuel rn l,
+  has_blocking root = true ->
+  term_active root (map (fun st => match s_sub st with Some c => Some (build cf parents true c) | None => None end) (m_states root)) rn = true ->
+  Forall is_process l ->
+  run_ops cf root (build cf parents false root) (S fuel) rn l = map (fun _ => ([Res HANDLED_TRUE], snapshot root rn [])) l.
+Proof. exact mp11_terminated_forever. Qed.
+Print Assumptions C11_terminated_forever_mp11.
+
+(* a machine that reaches its terminate state by an event, then stays silent *)
+Example C11_forever_example :
+  let root := Machine [State KSimple None [] [] [] 0; State KTerm None [] [] [] 0; State KSimple None [] [] [] 1] [0; 2]
+                      [Row 1 0 (TrEv 4) (TgState 1) false ActCall None; Row 2 2 (TrEv 5) TgNone false ActCall None] [] HNone in
+  let md := MDef root [] in
+  has_blocking root = true /\
+  map snd (run (Cfg Back false 0 false) md [OStart [] []; OProcess (Evt 4 0) [] []]) = [[([], [0; 2])]; [([], [1; 2])]] /\
+  run (Cfg Back false 0 false) md [OStart [] []; OProcess (Evt 4 0) [] []; OProcess (Evt 5 1) [] []; OProcess (Evt 4 2) [] []] =
+  run (Cfg Back false 0 false) md [OStart [] []; OProcess (Evt 4 0) [] []] ++ [([Res 1], [([], [1; 2])]); ([Res 1], [([], [1; 2])])].
+Proof. vm_compute. repeat split. Qed.
+
+(* while an interrupt state is active: every event type that is not an end-interrupt type of an active interrupt state *)
+Theorem C11_interrupted_silent_back : forall cf, c_be cf <> Mp11 -> forall parents root fuel rn l,
+  has_blocking root = true -> flag_or root rn is_intr_state = true ->
+  Forall (process_not_ending (fun ety => flag_or root rn (fun st => ends_intr st ety))) l ->
+  run_ops cf root (build cf parents false root) (S fuel) rn l = map (fun _ => ([Res HANDLED_TRUE], snapshot root rn [])) l.
+Proof. exact back_interrupted_silent. Qed.
+Print Assumptions C11_interrupted_silent_back.
